@@ -42,7 +42,8 @@ RULE = ("approval elections with 1..4 voters, 1..4 projects, integer costs 1..4 
         "validator: exact LP witnesses and Equal Shares price systems x 10 kinds of margin-0.1 breakage; straddle pairs: grid-valued / LP-vertex / relaxed-optimum exact systems x 7 float perturbations (ulps, 1e-12) x float and exact form, must be accepted; search: every subset x "
         "stable/plain x exhaustive on/off + searched mode; non-trivial = >=2 voters, >=2 projects, a non-empty allocation and both "
         "verdicts occur for the election; distinct by case+allocation+flags; relaxations: the five relaxation classes x (3 feasible "
-        "allocations + the searched mode on every 3rd election) x exhaustive on/off, validator on exact LP optima with beta lowered / raised")
+        "allocations + the searched mode on every 3rd election) x exhaustive on/off, validator on exact LP optima with beta lowered / raised; "
+        "relaxed programs: the five classes x (3 feasible allocations + searched + 1 infeasible) x exhaustive on/off, program captured at optimize()")
 ASSUMPTIONS = [
     "exact-arithmetic mode; list profiles", "integer costs and integer budget (the MIP encodes 'total + c > budget' as '>= budget + 1')",
     "validator inputs are exact numbers (int / mpq); near misses closer than 0.1 are only compared with the model, never judged",
@@ -60,7 +61,11 @@ TRUSTED = ["exact simplex over Fractions with certified answers (witness substit
            "'reports success exactly when a price system exists': the program priceable() builds is compared row by row with the Lean model "
            "PriceMIP.constraints, proved to encode the definition (C12MIP.lean: encoding_sound / encoding_complete, <= 10 supporters per "
            "selected project, unselected costs <= 10 x budget); what CBC answers for that program is tested against the LP oracle, not proved",
-           "optimality of the beta returned with a relaxation is tested against the exact simplex (primal/dual certificates verified), not proved"]
+           "the beta returned with a relaxation: the program priceable(relaxation=R) builds (variables with bounds, rows, objective) is compared "
+           "with the Lean model PriceMIP.rprogram, proved to encode the relaxed definition within the class's declared domain and the big-M "
+           "bounds, with objective = get_beta (C12MIPRelax.lean: relaxed_encoding_sound / relaxed_encoding_complete / relaxed_optimum_spec under "
+           "the hypothesis RSolverSpec: the solver returns an objective-optimal point); that CBC does so is tested against the exact simplex "
+           "(primal/dual certificates verified), not proved"]
 
 TOL = 1e-6
 
@@ -1239,6 +1244,9 @@ def run(ctx):
     from . import C12_mip  # the program priceable() really builds == the Lean model PriceMIP.constraints (C12MIP.lean)
 
     C12_mip.mip_part(ctx, ctx.scale(30, 400), solve_every=ctx.scale(6, 3), gen_case=gen_case, subsets=subsets, budget_s=ctx.scale(25, None))
+    # … and with relaxation=R: the program (add_beta, add_stability_constraint, add_objective) == PriceMIP.rprogram (C12MIPRelax.lean)
+    C12_mip.mip_relax_part(ctx, ctx.scale(20, 250), solve_every=ctx.scale(6, 3), witness_every=ctx.scale(5, 2), gen_case=gen_case, subsets=subsets,
+                           budget_s=ctx.scale(12, None))
     C12_mip.bigM_limits(ctx)
     box = solverbox.Box()
     try:
@@ -1254,12 +1262,12 @@ def run(ctx):
 def settle_suspects(ctx, threshold=3):
     """search verdicts that contradict the exact oracle.  For the plain/stable search (relaxation=None) each suspect is
     ADJUDICATED: the call is repeated with the program captured; if the program is the proved one (PriceMIP) the solver is at
-    fault for that program (discarded and counted), otherwise the library is (violation) - see C12_mip.adjudicate.  For the
-    relaxed searches, whose programs are not captured yet, the count decides as before: a handful per 100 000 calls are CBC
-    hiccups; `threshold` or more in one run are a systematic disagreement -> violations."""
+    fault for that program (discarded and counted), otherwise the library is (violation) - see C12_mip.adjudicate / adjudicate_relax.  Whatever cannot be adjudicated (an
+    exception while repeating the call, more than 15 suspects) is decided by the count as before: a handful per 100 000 calls
+    are CBC hiccups; `threshold` or more in one run are a systematic disagreement -> violations."""
     sus = ctx.extra.pop("_suspects", [])
     ctx.extra["search_vs_oracle_suspects"] = len(sus)
-    plain = [v for v in sus if "relaxation" not in v.get("sig", {}) and v.get("cfg", {}).get("part") == "search"]
+    plain = [v for v in sus if v.get("cfg", {}).get("part") == "search" or (v.get("cfg", {}).get("part") == "relax" and v.get("cfg", {}).get("relax") in RELAX_CLASS)]
     rest = [v for v in sus if v not in plain]
     if plain:
         from . import C12_mip
@@ -1269,8 +1277,12 @@ def settle_suspects(ctx, threshold=3):
             for v in plain[:15]:
                 cfg, sig = v["cfg"], v["sig"]
                 try:
-                    verdict, why = C12_mip.adjudicate(box, Case.from_json(v["case"]), cfg.get("W"), bool(sig.get("stable")),
-                                                      bool(sig.get("exhaustive")), bool(sig.get("searched")))
+                    if cfg.get("part") == "relax":
+                        verdict, why = C12_mip.adjudicate_relax(box, Case.from_json(v["case"]), cfg.get("W"), cfg["relax"],
+                                                                bool(cfg.get("exhaustive")), bool(sig.get("searched")))
+                    else:
+                        verdict, why = C12_mip.adjudicate(box, Case.from_json(v["case"]), cfg.get("W"), bool(sig.get("stable")),
+                                                          bool(sig.get("exhaustive")), bool(sig.get("searched")))
                 except Exception as e:  # noqa: BLE001
                     verdict, why = "undecided", repr(e)
                 ctx.count("suspect_adjudication", verdict)
@@ -1377,6 +1389,21 @@ def replay(payload):
         if sus:
             return False, "still fails: " + sus[0]["what"]
         return True, "property holds on the replayed input" + (" (solver fault, discarded)" if ctx.solver_faults else "")
+    if part == "miprelax":
+        from . import C12_mip
+
+        job = {"op": "capture", "case": case.to_json(), "W": cfg.get("W"), "relax": cfg["relax"], "stable": cfg["stable"],
+               "exhaustive": cfg["exhaustive"], "fb": cfg.get("fb"), "pf": cfg.get("pf"), "solve": False}
+        if job["pf"] is not None and (len(job["pf"]) != len(case.ballots) or any(set(p) != set(case.names) for p in job["pf"])):
+            return True, "not applicable: the stored payments do not belong to this election"
+        box = C12_mip.MipBox()
+        try:
+            dump = box.call(job)
+        finally:
+            box.close()
+        if dump is not None and "error" in dump:
+            return False, "still fails: priceable raised " + dump["error"] + " while building its program"
+        return True, "property holds on the replayed input: the program is built"
     if part == "mes":
         from pabutools.rules import method_of_equal_shares
 
